@@ -9,6 +9,19 @@ ENGINE_NOTE = ("Lean kernel; axioms propext/Classical.choice/Quot.sound; the eng
                "Lean driver and an independent naive least-model oracle; rustc, syn/quote, hash maps (C19), petgraph (validated by validOrder) and the "
                "evaluation of embedded Rust expressions (theorems hold for every interpretation) are modelled, not verified.")
 CLAIMS = {
+ "C18": dict(
+   engine="tie-C-ds",
+   technique="Lean 4 theorems over models of uf.rs / trrel_union_find.rs + exhaustive and random op-history correspondence (tie C) + closure/partition oracle",
+   text="Lean 4 theorems: for UnionFind, EVERY history of add/find/find_item/union (on arbitrary existing ids)/union_add runs without panic, keeps the "
+        "well-formedness invariant (parents in range, ranks increase to the root, next pointers form one cycle per class, items/elems agree; find's "
+        "path halving never exhausts its fuel) and two items are in the same class iff connected by the unions performed (uf_run_ok, uf_same_class_iff). "
+        "For TrRelUnionFind, contains <-> reflexive transitive closure and panic-freedom are proved for every collapse-free history (tr_acyclic_contains_iff, "
+        "tr_contains_iff_partial; key lemma tr_addSetConnection_exact); the back-edge collapse (merge_multiple) and iter_all/set_of/rev_set_of/count_exact "
+        "are PARTIAL: covered by the correspondence only. Tie: every `tr add` history of length <= 4 over 4 elements (canonical to 5/6), all uf histories "
+        "of length <= 3/4, PRNG histories to length 60, all queries and consistency checks after each op, real code vs Lean model vs Floyd-Warshall/partition oracle.",
+   design_ref="DESIGN.md §8 C18",
+   note="Lean kernel; axioms propext/Classical.choice/Quot.sound; models hand-written statement by statement, tied by op-history diffing; "
+        "hashbrown/std collections and Cell mutation are modelled as state threading; UnionFind::ok() itself is exercised (hook verif_ok), not proved."),
  "C01": dict(
    engine="tie-B-engine",
    technique="Lean 4 proof of semi-naive evaluation = least model (all programs, inputs, interpretations, fuels) + compiled-program correspondence (tie B)",
